@@ -13,12 +13,12 @@ theorem otxLeakRun : Steps Cfg.asIs (init 2) otxLeakSt := by
   have h := h.step (Step.startOtx _ 0 rfl)
   have h := h.step (Step.selTok _ 0 (.otxSel false) (.otxBranch false) rfl rfl rfl)
   have h := h.step (Step.otxRotate _ 0 false rfl)
-  have h := h.step (Step.cwSendGo _ 0 false .otxRot1 false rfl rfl)
+  have h := h.step (Step.cwSendGo _ 0 false .otxRot1 false rfl rfl rfl)
   have h := h.step (Step.bgWorkOk _ false (some 0) rfl)
-  have h := h.step (Step.bgSetErr _ false (some 0) true false rfl (Or.inl rfl))
+  have h := h.step (Step.bgSetErr _ false (some 0) true false rfl rfl)
   have h := h.step (Step.bgLockClk _ false (some 0) rfl rfl)
   have h := h.step (Step.bgCommitOk _ false (some 0) rfl)
-  have h := h.step (Step.bgSetErr _ false (some 0) true true rfl (Or.inl rfl))
+  have h := h.step (Step.bgSetErr _ false (some 0) true true rfl rfl)
   have h := h.step (Step.bgAck _ false (some 0) rfl)
   have h := h.step (Step.otxNewMemFail _ 0 false rfl)
   have h := h.step (Step.otxFail _ 0 false rfl)
@@ -37,12 +37,12 @@ theorem commitLeakRun : Steps Cfg.asIs (init 5) commitLeakSt := by
   have h := h.step (Step.startOtx _ 0 rfl)
   have h := h.step (Step.selTok _ 0 (.otxSel false) (.otxBranch false) rfl rfl rfl)
   have h := h.step (Step.otxNoRotate _ 0 false rfl)
-  have h := h.step (Step.cwSendGo _ 0 false .otxWaitM false rfl rfl)
+  have h := h.step (Step.cwSendGo _ 0 false .otxWaitM false rfl rfl rfl)
   have h := h.step (Step.bgWorkOk _ false (some 0) rfl)
-  have h := h.step (Step.bgSetErr _ false (some 0) true false rfl (Or.inl rfl))
+  have h := h.step (Step.bgSetErr _ false (some 0) true false rfl rfl)
   have h := h.step (Step.bgLockClk _ false (some 0) rfl rfl)
   have h := h.step (Step.bgCommitOk _ false (some 0) rfl)
-  have h := h.step (Step.bgSetErr _ false (some 0) true true rfl (Or.inl rfl))
+  have h := h.step (Step.bgSetErr _ false (some 0) true true rfl rfl)
   have h := h.step (Step.bgAck _ false (some 0) rfl)
   have h := h.step (Step.otxNoWaitComp _ 0 false rfl)
   have h := h.step (Step.otxDone _ 0 false rfl)
@@ -67,9 +67,9 @@ theorem commitLeakRun : Steps Cfg.asIs (init 5) commitLeakSt := by
   have h := h.step (Step.startPut _ 2 rfl)
   have h := h.step (Step.selTok _ 2 .putSel .putFlush rfl rfl rfl)
   have h := h.step (Step.putWait _ 2 false rfl)
-  have h := h.step (Step.cwSendGo _ 2 false .put false rfl rfl)
+  have h := h.step (Step.cwSendGo _ 2 false .put false rfl rfl rfl)
   have h := h.step (Step.bgWorkOk _ false (some 2) rfl)
-  have h := h.step (Step.bgSetErr _ false (some 2) true false rfl (Or.inl rfl))
+  have h := h.step (Step.bgSetErr _ false (some 2) true false rfl rfl)
   exact h
 
 /-- after `DB.Write` (large batch) returned the error of `tr.Commit()`: the internal transaction is still
@@ -81,12 +81,12 @@ theorem lgLeakRun : Steps Cfg.asIs (init 2) lgLeakSt := by
   have h := h.step (Step.startWrite _ 0 rfl)
   have h := h.step (Step.selTok _ 0 (.otxSel true) (.otxBranch true) rfl rfl rfl)
   have h := h.step (Step.otxNoRotate _ 0 true rfl)
-  have h := h.step (Step.cwSendGo _ 0 false .otxWaitM true rfl rfl)
+  have h := h.step (Step.cwSendGo _ 0 false .otxWaitM true rfl rfl rfl)
   have h := h.step (Step.bgWorkOk _ false (some 0) rfl)
-  have h := h.step (Step.bgSetErr _ false (some 0) true false rfl (Or.inl rfl))
+  have h := h.step (Step.bgSetErr _ false (some 0) true false rfl rfl)
   have h := h.step (Step.bgLockClk _ false (some 0) rfl rfl)
   have h := h.step (Step.bgCommitOk _ false (some 0) rfl)
-  have h := h.step (Step.bgSetErr _ false (some 0) true true rfl (Or.inl rfl))
+  have h := h.step (Step.bgSetErr _ false (some 0) true true rfl rfl)
   have h := h.step (Step.bgAck _ false (some 0) rfl)
   have h := h.step (Step.otxNoWaitComp _ 0 true rfl)
   have h := h.step (Step.otxDone _ 0 true rfl)
@@ -99,18 +99,18 @@ theorem lgLeakRun : Steps Cfg.asIs (init 2) lgLeakSt := by
 /-- `SetReadOnly` racing with `Close`: it took the token, `Close` closed `closeC`, `compactionError`
 left its `noerr` loop, `SetReadOnly` returned `ErrClosed`; `Close` (thread 1) is about to take the token -/
 def srLeakSt : St :=
-  { ws := [.ret false, .clAcq], tok := true, ehTok := true, closed := true, eh := .exited }
+  { ws := [.ret false, .clAcq], tok := true, ehTok := true, cwl := true, closed := true, eh := .exited }
 
-theorem srLeakRun (cfg : Cfg) (hf : cfg.setReadOnlyReleasesOnClose = false) :
+theorem srLeakRun (cfg : Cfg) (hm : cfg.m = .asCoded) (hf : cfg.setReadOnlyReleasesOnClose = false) :
     Steps cfg (init 2) srLeakSt := by
   have h := Steps.refl (cfg := cfg) (init 2)
   have h := h.step (Step.startSR _ 0 rfl rfl)
   have h := h.step (Step.selTok _ 0 .srSel .srSet rfl rfl rfl)
   have h := h.step (Step.startClose _ 1 rfl)
-  have h := h.step (Step.ehExit _ (by decide) rfl)
+  have h := h.step (Step.ehClose _ (by rw [hm]; rfl) rfl)
   have e := Step.srClosed (cfg := cfg)
-    { ws := [.srSet, .clCheckTr], tok := true, ehTok := true, closed := true, eh := .exited } 0 rfl rfl
-  simp only [hf, Bool.false_and] at e
+    { ws := [.srSet, .clCheckTr], tok := true, ehTok := true, cwl := true, closed := true, eh := .exited } 0 rfl rfl
+  simp only [hf] at e
   have h := h.step e
   have h := h.step (Step.clCheckTr _ 1 rfl)
   exact h
